@@ -974,23 +974,25 @@ def _conn_messages(mod):
     R, N, B = mod.Request, mod.Notification, mod.Batch
     v1, v2 = mod.JSONRPCv1, mod.JSONRPCv2
     E_ = mod.RPCError
+    # responses that are not answers to anything carry string ids (no connection draws those);
+    # real answers are the `answer` steps, built from the ids read off each connection's own wire
     return {
         'v1req': lambda: v1.request_message(R('a', [1]), 11),
         'v1req2': lambda: v1.request_message(R('b', ['x', [2]]), 'k'),
         'v1notif': lambda: v1.notification_message(N('n', [])),
-        'v1res': lambda: v1.response_message([1, {'a': 2}], 0),
-        'v1err': lambda: v1.response_message(E_(5, 'oops'), 1),
+        'v1res': lambda: v1.response_message([1, {'a': 2}], 'r0'),
+        'v1err': lambda: v1.response_message(E_(5, 'oops'), 'r1'),
         'v2req': lambda: v2.request_message(R('m', [2]), 21),
         'v2named': lambda: v2.request_message(R('m', {'x': 1}), 22),
         'v2notif': lambda: v2.notification_message(N('m', [2])),
-        'v2res': lambda: v2.response_message('r', 0),
-        'v2err': lambda: v2.response_message(E_(-32601, 'nope'), 1),
+        'v2res': lambda: v2.response_message('r', 'r0'),
+        'v2err': lambda: v2.response_message(E_(-32601, 'nope'), 'r1'),
         'v2batch': lambda: v2.batch_message(B([R('p', []), N('q', {}), R('r', [3])]), [31, 32]),
-        'v2resbatch': lambda: b'[' + v2.response_message(1, 0) + b', ' + v2.response_message(2, 1) + b']',
+        'v2resbatch': lambda: b'[' + v2.response_message(1, 'r0') + b', ' + v2.response_message(2, 'r1') + b']',
         'barereq': lambda: b'{"method":"m","id":5}',
-        'bareres': lambda: b'{"result":1,"id":0}',
+        'bareres': lambda: b'{"result":1,"id":"r0"}',
         'v1explicit': lambda: b'{"jsonrpc":"1.0","method":"m","params":[],"id":3}',
-        'bothnull': lambda: b'{"result":null,"error":null,"id":1}',
+        'bothnull': lambda: b'{"result":null,"error":null,"id":"r1"}',
         'mixedbatch': lambda: b'[' + v1.request_message(R('a', [1]), 1) + b', ' + v2.request_message(R('m', []), 2) + b']',
         'emptybatch': lambda: b'[]',
         'number': lambda: b'5',
@@ -1064,7 +1066,8 @@ def _conn_op(mod, conn, futs, name, msgs, answer_fmt):
         if name == 'sendbatch':
             m, f = conn.send_batch(mod.Batch([mod.Request('x', []), mod.Notification('y', []),
                                               mod.Request('z', [1])]))
-            futs.append(f)
+            if f is not None:
+                futs.append(f)
             return ('sent', m)
         if name == 'answer':
             msg = answer_fmt
@@ -1097,40 +1100,69 @@ def _wire_ids(b):
     return [m['id'] for m in ms if isinstance(m, dict) and 'id' in m]
 
 
+def _norm_sent(b, drawn):
+    """a sent message with its ids replaced by the order in which this connection drew them (which
+    ids a connection draws is C01's business; two connections may share a counter)"""
+    try:
+        p = json.loads(b.decode())
+    except Exception:     # noqa
+        return b
+    for m in (p if isinstance(p, list) else [p]):
+        if isinstance(m, dict) and 'id' in m:
+            key = E(m['id']) if _is_j(m['id']) else repr(m['id'])
+            if key not in drawn:
+                drawn.append(key)
+            m['id'] = ['drawn', drawn.index(key)]
+    return E(p) if _is_j(p) else repr(p)
+
+
+class _Side:
+    def __init__(self, conn):
+        self.conn, self.futs, self.outstanding, self.drawn = conn, [], [], []
+
+
 def eval_conn_history(mod, names, loop):
-    """returns (violation | None, model line, impl classes, tags)"""
+    """returns (violation | None, model line, impl classes, detected protocol)"""
     asyncio.set_event_loop(loop)
     P = cc.protos(mod)
     msgs = _conn_messages(mod)
-    auto = mod.JSONRPCConnection(mod.JSONRPCAutoDetect)
+    auto = _Side(mod.JSONRPCConnection(mod.JSONRPCAutoDetect))
     ref = None
-    afuts, rfuts = [], []
-    outstanding = []        # ids (from the wire of the auto connection) not yet answered
     classes, toks, nrecv = [], [], 0
     viol = None
     q0 = None
+
+    def run(side, name, step):
+        """one step on one side; an `answer` is a response (in the format of the detected class) to
+        the oldest request this side still has outstanding"""
+        answer = None
+        if name == 'answer':
+            rid = side.outstanding.pop(0)
+            answer = (P[q0] if q0 in P else mod.JSONRPCv2).response_message(['ans', step], rid)
+        o = _conn_op(mod, side.conn, side.futs, name, msgs, answer)
+        if o[0] == 'sent':
+            if name != 'sendnotif':
+                side.outstanding += _wire_ids(o[1])
+            o = ('sent', _norm_sent(o[1], side.drawn))
+        return o, answer
+
     for step, name in enumerate(names):
         sending = name in CONN_SENDS
         if sending and ref is None:
             continue            # nothing is sent before the protocol is known
-        answer = None
-        if name == 'answer':
-            if not outstanding:
-                continue
-            rid = outstanding.pop(0)
-            answer = (P[q0] if q0 in P else mod.JSONRPCv2).response_message(['ans', step], rid)
-        msg = None
-        if not sending or name == 'answer':
-            msg = answer if name == 'answer' else msgs[name]()
-            if ref is None:
-                # the protocol detected on the first message that parses (public API)
-                try:
-                    q0 = cc.proto_name(mod, mod.JSONRPCAutoDetect.detect_protocol(bytes(bytearray(msg))))
-                    if q0 in P:
-                        ref = mod.JSONRPCConnection(P[q0])
-                except Exception:     # noqa: does not parse - detection stays pending
-                    pass
-        oa = _conn_op(mod, auto, afuts, name, msgs, answer)
+        if name == 'answer' and not (auto.outstanding and ref.outstanding):
+            continue
+        if not sending and ref is None:
+            # the protocol detected on the first message that parses (public API)
+            try:
+                q0 = cc.proto_name(mod, mod.JSONRPCAutoDetect.detect_protocol(msgs[name]()))
+                if q0 in P:
+                    ref = _Side(mod.JSONRPCConnection(P[q0]))
+            except Exception:     # noqa: does not parse - detection stays pending
+                pass
+        oa, msg = run(auto, name, step)
+        if not sending:
+            msg = msgs[name]()
         if msg is not None:
             nrecv += 1
             try:
@@ -1141,20 +1173,17 @@ def eval_conn_history(mod, names, loop):
                 toks.append('x:json')
             if oa[0] == 'items':
                 kinds = [d[0] for d in oa[1]]
-                classes.append('B' if msg.lstrip()[:1] == b'[' else
-                               'R' if kinds == ['Request'] else 'N' if kinds == ['Notification'] else
+                classes.append('R' if kinds == ['Request'] else 'N' if kinds == ['Notification'] else
                                'V' if not kinds else '?')
             elif oa[0] == 'pe':
                 classes.append(f'PE{oa[1]}' if oa[2] is not None else 'V')
             else:
                 classes.append('PY' + oa[1])
-            if classes[-1] == 'B' or (oa[0] == 'pe' and msg.lstrip()[:1] == b'['):
+            if msg.lstrip()[:1] == b'[' and toks[-1][:2] != 'x:':
                 classes[-1] = 'B*'          # batches: the connection-level outcome is C01/C02's model
-        if oa[0] == 'sent':
-            outstanding += _wire_ids(oa[1]) if name != 'sendnotif' else []
         if ref is not None:
-            orf = _conn_op(mod, ref, rfuts, name, msgs, answer)
-            sa, sr = [_fut_state(f) for f in afuts if f is not None], [_fut_state(f) for f in rfuts if f is not None]
+            orf, _ = run(ref, name, step)
+            sa, sr = [_fut_state(f) for f in auto.futs], [_fut_state(f) for f in ref.futs]
             if viol is None and (oa != orf or sa != sr):
                 what = 'outcome' if oa != orf else 'futures'
                 viol = ('c04:autodetect-not-settled',
